@@ -6,6 +6,7 @@
 import Bkl
 import BklProofs.Lemmas.Output
 import BklProofs.C17
+import BklProofs.Lemmas.C06Layered
 namespace Bkl
 
 /-! ## Specification -/
@@ -219,5 +220,201 @@ theorem C07_dollar_lower_rejected_string (c : Char) (rest : List Char)
   exact C07_dollar_lower_rejected c rest h
 
 example : isLowerModel 'm' = true := by decide
+
+/-! ## `$required` across layers
+
+  Definitions (BklProofs/Lemmas/C06Layered.lean):
+  * `mapPath v π` — follow the keys `π` through nested maps of `v` (`none` if a key is missing or
+    a non-map is met before the end);
+  * `mentions u π` — following `π` through the layer `u` one meets a map with `$replace: true`,
+    or a value that is neither a map nor null, or reaches the end of `π`.  A layer that lacks
+    the next key, or is null at a proper prefix of `π`, does not mention `π`;
+  * `noReplaceAlong u π` — no map met on the way (end point excluded) has `$replace: true`;
+  * `dropRequired d` — the list `d` without its `"$required"` string entries;
+  * `plainEntry` — a list-patch entry that is no list directive (BklProofs/Lemmas/Merge.lean). -/
+
+/-- whatever sits at a map path is counted in the whole document -/
+theorem C07_countReq_of_path : ∀ (π : List String) (v x : Val), mapPath v π = some x →
+    countReq x ≤ countReq v := by
+  intro π
+  induction π with
+  | nil => intro v x h; rw [q_mapPath_nil] at h; cases h; omega
+  | cons k π ih =>
+    intro v x h
+    obtain ⟨m, c, rfl, hc, hx⟩ := q_mapPath_cons h
+    have h1 := ih c x hx
+    have h2 := q_countReq_le_of_fget hc
+    simp only [countReq]; omega
+
+/-- any value at a path no upper layer mentions is still there after the whole chain -/
+theorem C07_path_persists (lower : Val) (uppers : List Val) (π : List String) (x res : Val)
+    (hx : mapPath lower π = some x)
+    (hup : ∀ u ∈ uppers, u.WF ∧ mentions u π = false)
+    (h : mergeChain (lower :: uppers) = .ok res) : mapPath res π = some x :=
+  q_chain_path_frame π x uppers lower res hup hx h
+
+/-- **a `$required` in the lower layer persists** through any number of upper layers that do
+    not mention its path: it is still at `π` in the merged document, which therefore is
+    rejected by `validate` (and so by `emit`). -/
+theorem C07_required_persists (lower : Val) (uppers : List Val) (π : List String) (res : Val)
+    (hreq : mapPath lower π = some (.str "$required"))
+    (hup : ∀ u ∈ uppers, u.WF ∧ mentions u π = false)
+    (h : mergeChain (lower :: uppers) = .ok res) :
+    mapPath res π = some (.str "$required") ∧ 0 < countReq res ∧ validate res ≠ .ok () := by
+  have h1 := C07_path_persists lower uppers π _ res hreq hup h
+  have h2 : 0 < countReq res := by
+    have := C07_countReq_of_path π res _ h1
+    simp only [countReq, if_true] at this
+    omega
+  exact ⟨h1, h2, C07_required_rejected res h2⟩
+
+/-- **an upper layer that sets `π` overrides the marker**: the merged document has the upper
+    layer's value `c` at `π` (so for `c ≠ "$required"` this marker is gone).  `c` may be any value
+    (scalar, list, map, null) except the `$delete` directive.  Maps with `$replace: true` on the
+    way are allowed; the single excluded case is `c` being that very `$replace: true` entry. -/
+theorem C07_required_scalar_override (lower upper res : Val) (π : List String) (c : Val)
+    (hw : upper.WF) (hreq : mapPath lower π = some (.str "$required"))
+    (hc : mapPath upper π = some c) (hdel : c ≠ .str "$delete")
+    (hlast : c = .bool true → π.getLast? ≠ some "$replace")
+    (h : merge lower upper = .ok res) : mapPath res π = some c := by
+  refine q_merge_path_scalar π lower upper res _ c hw hreq rfl hc ?_ hlast h
+  intro ht
+  apply hdel
+  cases c <;> simp_all [Val.toStr]
+
+/-- an upper layer repeating the marker does not satisfy it: that merge is rejected -/
+theorem C07_required_same_rejected (lower upper : Val) (π : List String)
+    (hw : upper.WF) (hreq : mapPath lower π = some (.str "$required"))
+    (hc : mapPath upper π = some (.str "$required")) (hnr : noReplaceAlong upper π = true) :
+    ∃ e, merge lower upper = .error e := by
+  cases h : merge lower upper with
+  | error e => exact ⟨e, rfl⟩
+  | ok r =>
+    obtain ⟨r', h1, _⟩ := q_merge_path_merge π lower upper r _ _ hw hreq hc hnr (by decide) h
+    rw [merge_scalar _ _ rfl] at h1
+    simp at h1
+
+/-- the model's rule for `$required` entries of a list (`mergeListList`): unless the patch
+    list carries a `$replace` directive, the parent's `"$required"` string entries are removed
+    *before* the patch entries are applied — whatever the patch is, even `[]`. -/
+theorem C07_list_strip_rule (d s : List Val)
+    (h1 : s.any (fun x => x == Val.str "$replace") = false)
+    (h2 : hasListMapBool s "$replace" true = false) :
+    merge (.list d) (.list s) = Except.map Val.list (mergeEntries (dropRequired d) s) := by
+  rw [merge_list_list, mergeListList_no_replace d h1 h2]
+  cases mergeEntries (dropRequired d) s <;> rfl
+
+theorem C07_list_strip_nil (d : List Val) :
+    merge (.list d) (.list []) = .ok (.list (dropRequired d)) ∧
+    Val.str "$required" ∉ dropRequired d :=
+  ⟨q_merge_list_nil d, q_not_mem_dropRequired d⟩
+
+/-- **a `$required` list entry survives** upper layers that do not mention the list's path (for
+    `π = [k]`: that do not have the key `k` at all) -/
+theorem C07_required_list_persists (lower : Val) (uppers : List Val) (π : List String)
+    (L : List Val) (res : Val)
+    (hL : mapPath lower π = some (.list L)) (hmem : Val.str "$required" ∈ L)
+    (hup : ∀ u ∈ uppers, u.WF ∧ mentions u π = false)
+    (h : mergeChain (lower :: uppers) = .ok res) :
+    mapPath res π = some (.list L) ∧ 0 < countReq res ∧ validate res ≠ .ok () := by
+  have h1 := C07_path_persists lower uppers π _ res hL hup h
+  have h2 : 0 < countReq res := by
+    have := C07_countReq_of_path π res _ h1
+    have h3 := q_countReq_le_of_mem hmem
+    simp only [countReq, if_true] at this h3
+    omega
+  exact ⟨h1, h2, C07_required_rejected res h2⟩
+
+/-- **… and is stripped when the upper layer's list appends**: for a patch list `s` of plain
+    entries at the same path the merged list is `dropRequired L ++ s`; it contains a
+    `"$required"` entry only if `s` brings its own. -/
+theorem C07_required_list_stripped (lower upper res : Val) (π : List String) (L s : List Val)
+    (hw : upper.WF) (hL : mapPath lower π = some (.list L))
+    (hs : mapPath upper π = some (.list s)) (hnr : noReplaceAlong upper π = true)
+    (hplain : s.all plainEntry = true) (h : merge lower upper = .ok res) :
+    mapPath res π = some (.list (dropRequired L ++ s)) ∧
+    (Val.str "$required" ∈ dropRequired L ++ s ↔ Val.str "$required" ∈ s) := by
+  obtain ⟨r', h1, h2⟩ := q_merge_path_merge π lower upper res _ _ hw hL hs hnr
+    (by simp only [Val.toStr]; decide) h
+  rw [q_merge_list_plain L s hplain] at h1
+  cases h1
+  refine ⟨h2, ?_⟩
+  rw [List.mem_append]
+  constructor
+  · rintro (h | h)
+    · exact absurd h (q_not_mem_dropRequired L)
+    · exact h
+  · exact Or.inr
+
+/-! ### non-vacuity -/
+
+local instance instDecWF_C07 (v : Val) : Decidable v.WF := by unfold Val.WF; infer_instance
+
+/-- lower layer: a marker at `svc.port`, a marker entry in the list `svc.args` -/
+def c07_lower : Val :=
+  .map [("name", .str "x"),
+        ("svc", .map [("args", .list [.str "$required", .str "-v"]), ("port", .str "$required")])]
+
+/-- two upper layers that touch `svc` and `name` but neither `svc.port` nor `svc.args` -/
+def c07_up1 : Val := .map [("svc", .map [("host", .str "h")])]
+def c07_up2 : Val := .map [("name", .str "y"), ("svc", .null)]
+
+example : mapPath c07_lower ["svc", "port"] = some (.str "$required") ∧
+    (∀ u ∈ [c07_up1, c07_up2], u.WF ∧ mentions u ["svc", "port"] = false) ∧
+    mergeChain [c07_lower, c07_up1, c07_up2] =
+      .ok (.map [("name", .str "y"),
+        ("svc", .map [("args", .list [.str "$required", .str "-v"]), ("host", .str "h"),
+                      ("port", .str "$required")])]) := by
+  refine ⟨by decide, by decide, ?_⟩
+  simp [c07_lower, c07_up1, c07_up2, mergeChain, List.foldlM, merge, mergeMapMap, mergeFields,
+    fhasBool, fget, fset, Val.toStr]
+  rfl
+
+example : mapPath c07_lower ["svc", "args"] = some (.list [.str "$required", .str "-v"]) ∧
+    Val.str "$required" ∈ [Val.str "$required", .str "-v"] ∧
+    (∀ u ∈ [c07_up1, c07_up2], u.WF ∧ mentions u ["svc", "args"] = false) := by decide
+
+/-- an upper layer that sets the port, below a `$replace: true` map -/
+def c07_up3 : Val := .map [("svc", .map [("$replace", .bool true), ("port", .int 80)])]
+
+example : c07_up3.WF ∧ mapPath c07_up3 ["svc", "port"] = some (.int 80) ∧
+    Val.int 80 ≠ .str "$delete" ∧ (Val.int 80 = .bool true → False) ∧
+    mentions c07_up3 ["svc", "port"] = true ∧
+    merge c07_lower c07_up3 = .ok (.map [("name", .str "x"), ("svc", .map [("port", .int 80)])]) := by
+  refine ⟨by decide, by decide, by decide, by decide, by decide, ?_⟩
+  simp [c07_lower, c07_up3, merge, mergeMapMap, mergeFields, fhasBool, fget, fset, fdel,
+    Val.toStr]
+  rfl
+
+/-- the excluded case of `C07_required_scalar_override` is real: the value at `π` is itself the
+    `$replace: true` directive and is consumed -/
+example : mapPath (.map [("$replace", .str "$required")]) ["$replace"] = some (.str "$required") ∧
+    mapPath (.map [("$replace", .bool true)]) ["$replace"] = some (.bool true) ∧
+    merge (.map [("$replace", .str "$required")]) (.map [("$replace", .bool true)])
+      = .ok (.map []) := by
+  refine ⟨by decide, by decide, ?_⟩
+  simp [merge, mergeMapMap, fhasBool, fget, fdel]
+  rfl
+
+/-- `$delete` is the other way to get rid of the marker: the key disappears -/
+example : merge (.map [("a", .str "$required")]) (.map [("a", .str "$delete")]) = .ok (.map []) := by
+  simp [merge, mergeMapMap, mergeFields, fhasBool, fget, fdel, fhas, Val.toStr]
+  rfl
+
+/-- an upper layer whose list appends: the marker entry is stripped -/
+def c07_up4 : Val := .map [("svc", .map [("args", .list [.str "-q"]), ("port", .int 1)])]
+
+example : c07_up4.WF ∧ mapPath c07_up4 ["svc", "args"] = some (.list [.str "-q"]) ∧
+    noReplaceAlong c07_up4 ["svc", "args"] = true ∧ [Val.str "-q"].all plainEntry = true ∧
+    merge c07_lower c07_up4 = .ok (.map [("name", .str "x"),
+      ("svc", .map [("args", .list [.str "-v", .str "-q"]), ("port", .int 1)])]) := by
+  refine ⟨by decide, by decide, by decide, by decide, ?_⟩
+  simp [c07_lower, c07_up4, merge, mergeMapMap, mergeFields, fhasBool, fget, fset, Val.toStr,
+    mergeListList, popListString, popListMapBool, hasListMapBool, mergeEntries]
+  rfl
+
+example : [Val.int 1].any (fun x => x == Val.str "$replace") = false ∧
+    hasListMapBool [Val.int 1] "$replace" true = false := by decide
+
 
 end Bkl
